@@ -91,6 +91,7 @@ enum Variant
     V_INITIALISED_VOI,
     V_SECOND_ORDER,
     V_UNUSED_VARIABLE,
+    V_EXTRA_NLA_EQUATION,
     V_COUNT
 };
 const char *variantName(int v);
@@ -110,6 +111,7 @@ struct Obs
     std::vector<int> primary; // per class: origin id of AnalyserVariable::variable(), -1 = absent
     std::vector<int> systemOf; // per class: smallest class id among the unknowns of its NLA system, -1 = not NLA-solved
     std::multiset<std::string> eqTypes;
+    bool rolesOk = false; // role / eqKinds / primary / systemOf are filled
     std::string sig, msg; // first failure of the monitor / harness self-checks / well-formedness ("" = none)
     libcellml::ModelPtr model; // kept alive so that the analyser model can be dumped when a failure is reported
     libcellml::AnalyserModelPtr am;
